@@ -352,6 +352,11 @@ def _justify(fn, L, pm, site, cont, idx, off, possets, shrink):
     if rel is None:
         return False, 'index %s ranges over %s, which does not bound this container' % (name, astu.src(bound_c) if bound_c else '?')
     if 'sentinel' in kinds:
+        ty = v.get('ty', '')
+        unsigned = any(w in ty for w in ('unsigned', 'size_t', 'size_type', 'uint'))
+        if unsigned and not _throw_guard_before(fn, pm, site, name) and not _definitely_assigned_before(pm, site, idx):
+            return False, ('index %s is declared `%s`: the sentinel -1 wraps to the largest value and a `>= 0` / `> 0` guard is '
+                           'always true, so the subscript is reached with the sentinel' % (name, ty))
         if off == 0:
             guarded = _under(pm, site, name, '>=', 0) or _throw_guard_before(fn, pm, site, name) or _under(pm, site, name, '>', 0) or \
                 _definitely_assigned_before(pm, site, idx)
